@@ -268,11 +268,13 @@ class _mark_ignore_name(ast.NodeTransformer):
 
 
 class _rewrite_captured_vars(ast.NodeTransformer):
-    def __init__(self, cv: inspect.ClosureVars):
+    def __init__(self, cv: inspect.ClosureVars, expanding: Optional[List[Callable]] = None):
         # An enclosing function's variable hides a module level variable of the same name.
         self._lookup_dict: Dict[str, Any] = dict(cv.globals)
         self._lookup_dict.update(cv.nonlocals)
         self._ignore_stack = []
+        # The captured functions that are being expanded right now (recursion guard)
+        self._expanding: List[Callable] = [] if expanding is None else expanding
 
     def visit_Name(self, node: ast.Name) -> Any:
         if self.is_arg(node.id):
@@ -293,7 +295,20 @@ class _rewrite_captured_vars(ast.NodeTransformer):
                 # like that.
                 return as_literal(v)
             elif callable(v) and ((lm := safe_parse_wrapper(v)) is not None):
-                return lm
+                # The function has captured variables of its own: they mean what they mean
+                # where the function was defined, and are frozen like ours are. A function
+                # that (indirectly) calls itself is left as a call by name.
+                if any(v is e for e in self._expanding):
+                    return node
+                self._expanding.append(v)
+                try:
+                    return _rewrite_captured_vars(global_getclosurevars(v), self._expanding).visit(
+                        lm
+                    )
+                except Exception:
+                    return lm
+                finally:
+                    self._expanding.pop()
             else:
                 # If it is a local function, we need to parse it as an AST
                 return node
